@@ -158,6 +158,61 @@ def run_case(pname, project, removed, purge, driver, stats, add):
             {'want': want_ids, 'got': after_ids})
 
 
+def run_emptied_case(purge, driver, stats, add):
+    """A stale app whose models were all deleted by its own evolution
+    earlier: its (empty) signature entry must still be purgeable."""
+    stats['cases'] += 1
+    v0 = P(A('va', [M('Item', [F('name', 'Char', max_length=20)])]),
+           A('vx', [M('Gone', [F('n', 'Int', null=True)])]))
+    hist = EB.History(v0, [('vx', 'e1', [['DeleteModel', 'Gone']])])
+    hist.install(0)
+    B.fresh_db('default')
+    B.reset_globals()
+    r = D.d2_all()
+    hist.install(1)
+    B.reset_globals()
+    r = D.d2_all()
+    if not r.ok:
+        add('C15|emptied-app|setup-fails|%s' % r.exc_type,
+            {'scenario': 'emptied-app'}, {'error': str(r.exc)[:200]})
+        return
+    before_tables = set(O.list_tables('default'))
+    before_ids = stored_app_ids()
+    MZ.install(P(S.clone(v0['apps'][0])),
+               evolutions={'va': {'SEQUENCE': [], 'modules': {}}})
+    B.reset_globals()
+    replay = {'scenario': 'emptied-app', 'purge': purge, 'driver': driver}
+    shape = '%s|%s' % ('purge' if purge else 'no-purge', driver)
+    if driver == 'D3':
+        res = D.d3(purge=purge)
+    else:
+        from django_evolution.evolve import Evolver
+        res = D.RunResult()
+        try:
+            ev = Evolver()
+            ev.queue_evolve_all_apps()
+            if purge:
+                ev.queue_purge_old_apps()
+            if ev.get_evolution_required():
+                ev.evolve()
+            res.ok = True
+        except Exception as e:
+            res.exc, res.exc_type = e, type(e).__name__
+            D._abort_transactions('default')
+    stats['runs'] += 1
+    if not res.ok:
+        add('C15|emptied-app|run-fails|%s|%s' % (res.exc_type, shape),
+            replay, {'error': str(res.exc)[:300]})
+        return
+    if set(O.list_tables('default')) != before_tables:
+        add('C15|emptied-app|tables-changed|%s' % shape, replay, {})
+    want = sorted(set(before_ids) - {'vx'}) if purge else before_ids
+    got = stored_app_ids()
+    if got != want:
+        add('C15|emptied-app|stored-signature-apps-wrong|%s' % shape,
+            replay, {'want': want, 'got': got})
+
+
 def judge_delete(node, step, tr):
     out = []
     for fp, detail in c01.judge(node, step, tr):
@@ -181,7 +236,12 @@ def work(task):
             ent['count'] += 1
             if size < ent['size']:
                 ent.update(exemplar=replay, detail=detail, size=size)
-    if kind == 'purge':
+    if kind == 'emptied':
+        for purge in (True, False):
+            for driver in ('D3', 'D2'):
+                run_emptied_case(purge, driver, stats, add)
+        stats['samples'].append({'scenario': 'emptied-app'})
+    elif kind == 'purge':
         _k, pname, project, removed = task
         for purge in (True, False):
             for driver in ('D3', 'D2'):
@@ -213,6 +273,7 @@ def run(tier, seed, confirm=True):
             tasks.append(('purge', pname, project, removed))
         tasks.append(('delete', pname, project,
                       2 if tier == 'quick' else 3))
+    tasks.append(('emptied',))
     total = {}
     coll = findings.Collector(PROP)
     for stats, viol in explore.run_tasks('vf.checks.c15.work', tasks,
@@ -252,7 +313,9 @@ def replay(path):
     def add(fp, replay, detail):
         found[fp] = detail
     stats = {'cases': 0, 'runs': 0}
-    if r.get('kind') == 'delete' or 'steps' in r:
+    if r.get('scenario') == 'emptied-app':
+        run_emptied_case(r['purge'], r['driver'], stats, add)
+    elif r.get('kind') == 'delete' or 'steps' in r:
         node = EA.start_node(r['start'], r.get('rows'))
         for step in r['steps']:
             tr = EA.execute(node, step)
